@@ -83,6 +83,35 @@ def programs(tier):
             (_n(L, "L.merge(R, left_on='a', right_on='e')", "merge-lr-on", cols=(("a_x", "i"), ("b_x", "f"), ("c", "i"), ("d", "i"), ("a_y", "i"), ("b_y", "f"), ("e", "i")), ordered=False), [srcL, srcR]),
             (_n(L, "L.merge(R, left_on='c', right_on='a')", "merge-lr-on", cols=(("a_x", "i"), ("b_x", "f"), ("c", "i"), ("d", "i"), ("a_y", "i"), ("b_y", "f"), ("e", "i")), ordered=False), [srcL, srcR]),
         ]
+        BCOLS = tuple((c, "b") for c, _ in L.cols)
+        extra_nodes += [
+            # (session 3) more operator forms: empty affixes, mapping arguments of element-wise operators, frame conditions, label-indexed
+            # reductions, operands with different column sets, index shuffles, casts of a column whose name is part of another name
+            (_n(L, "L.add_suffix('')", "affix-empty"), [srcL]), (_n(L, "L.add_prefix('')", "affix-empty"), [srcL]),
+            (_n(L, "L.round({'a': 1, 'b': 0})", "round-dict"), [srcL]), (_n(L, "L.round(1)", "round"), [srcL]),
+            (_n(L, "L.replace({'a': {1: 100}})", "replace-dict"), [srcL]), (_n(L, "L.replace({'a': {1: 100}, 'd': {0: 5}})", "replace-dict"), [srcL]), (_n(L, "L.replace(1, 100)", "replace"), [srcL]),
+            (_n(L, "L.where(L > 1)", "where-frame", cols=tuple((c, "f") for c, _ in L.cols)), [srcL]), (_n(L, "L.mask(L > 1, 0)", "mask-frame"), [srcL]),
+            (_n(L, "L.where(L.a > 1)", "where-series", cols=tuple((c, "f") for c, _ in L.cols)), [srcL]),
+            (_n(L, "L.clip(0, 2)", "clip"), [srcL]), (_n(L, "L.astype({'a': 'float64', 'd': 'float64'})", "astype-dict", cols=tuple((c, "f" if c in "ad" else k) for c, k in L.cols)), [srcL]),
+            (_n(L, "L.rename(columns={'d': 'da'}).astype({'a': 'float64', 'da': 'float64'})", "astype-substring", cols=(("a", "f"), ("b", "f"), ("c", "i"), ("da", "f"))), [srcL]),
+            (_n(L, "L.rename(columns={'d': 'da'}).fillna({'a': 0, 'da': 1})", "fillna-substring", cols=(("a", "i"), ("b", "f"), ("c", "i"), ("da", "i"))), [srcL]),
+            (_n(L, "(L[['a', 'b']] + L[['b', 'c']])", "binop-different-columns", cols=(("a", "f"), ("b", "f"), ("c", "f"))), [srcL]),
+            (_n(L, "(L[['a', 'c']] * L[['c', 'a']])", "binop-reordered-columns", cols=(("a", "i"), ("c", "i"))), [srcL]),
+            (_n(L, "L.shuffle(on_index=True)", "shuffle-on-index", ordered=False), [srcL]),
+            (_n(L, "L.isna()", "isna", cols=BCOLS), [srcL]), (_n(L, "L.notnull()", "notnull", cols=BCOLS), [srcL]), (_n(L, "(-L)", "neg"), [srcL]),
+            (_n(L, "L.drop(columns=['c'])", "drop", cols=tuple((c, k) for c, k in L.cols if c != "c")), [srcL]),
+            (_n(L, "L.dropna(how='all')", "dropna-all"), [srcL]), (_n(L, "L.ffill()", "ffill"), [srcL]), (_n(L, "L.bfill()", "bfill"), [srcL]),
+            (_n(L, "L.sort_values('a', npartitions=1) if L.npartitions == 1 else L.set_index('a', divisions=[-100, 0, 100]).reset_index()", "set_index-reset", cols=(("a", "i"), ("b", "f"), ("c", "i"), ("d", "i")), ordered=False), [srcL]),
+        ]
+        # label-indexed reductions of a frame, then a selection of labels (pandas: Series indexed by the column names)
+        for red in ("sum", "max", "count", "mean", "var", "std", "idxmax", "idxmin", "nunique", "all", "any", "min", "prod"):
+            for sel in ("[['a']]", "[['d', 'a']]", "['c']"):
+                progs.append(Program(f"L[['a', 'c', 'd']].{red}(){sel}", [srcL], ordered=False, check_index=True, family="F04", note=f"forms/reduction-labels/{red}", env_globals={"dx": dx}))
+        for text in ("L[[]].size", "len(L[[]].index) + L.a.sum()", "L[['a']][[]].index.size + L.a.sum()", "L.a.to_frame().assign(z=L.b).tail(2, compute=False)", "L.add(L.a, axis=0).head(3, compute=False)",
+                     "L.sub(L.c, axis=0)[['a']]", "L.a.to_frame().assign(z=L.b)[['z']]", "(lambda X: X[X.b > 1])(L.fillna(0).astype({'b': 'int64'}))",
+                     "(lambda X: X[X.a > 1][['c']])(L.replace({'a': {1: 100}}))", "(lambda X: X[X.a > 1].c.sum())(L.clip(0, 1))", "(lambda X: X[X.a > 2][['a']])(L.abs())",
+                     "(lambda X: X[X.a == 1].c.sum())(L.where(L.a > 1, 1))", "(lambda X: X[X.b.isna()].a.sum())(L.fillna({'b': 0}))", "(lambda X: X[X.b.isna()].a.sum())(L.round({'b': 0}))"):
+            progs.append(Program(text, [srcL], ordered=True, family="F04", note="forms/empty-selection-and-filters-over-elementwise", env_globals={"dx": dx}))
         for node, nsrcs in extra_nodes:
             for text, tag, ordered in _selections(node):
                 if tag.startswith("key-") and tag != "key-groupby":
